@@ -7,7 +7,9 @@ import (
 	"fmt"
 	"go/token"
 	"go/types"
+	"os"
 	"sort"
+	"strings"
 
 	"golang.org/x/tools/go/ssa"
 )
@@ -269,11 +271,32 @@ type writeSet struct {
 	all    bool
 	ghost  bool
 	allocs bool
+	why    []string
+	blocks map[*ssa.BasicBlock]bool // the loop being analysed
+}
+
+func (ws *writeSet) setAll(why string) {
+	ws.all = true
+	ws.why = append(ws.why, why)
 }
 
 // add records a write to the component family `prefix` through root value v
 // (nil = unknown object).
 func (ws *writeSet) add(prefix string, v ssa.Value) {
+	// an object allocated inside the loop is fresh in every iteration: writes to
+	// it cannot change any object that existed at the loop header
+	if al, ok := v.(*ssa.Alloc); ok && al.Heap && ws.blocks != nil && ws.blocks[al.Block()] {
+		ws.allocs = true
+		return
+	}
+	if ms, ok := v.(*ssa.MakeSlice); ok && ws.blocks != nil && ws.blocks[ms.Block()] {
+		ws.allocs = true
+		return
+	}
+	if mm, ok := v.(*ssa.MakeMap); ok && ws.blocks != nil && ws.blocks[mm.Block()] {
+		ws.allocs = true
+		return
+	}
 	ws.comps[prefix] = true
 	if v == nil {
 		ws.anyRef[prefix] = true
@@ -283,7 +306,7 @@ func (ws *writeSet) add(prefix string, v ssa.Value) {
 }
 
 func (ex *Exec) loopWrites(fr *Frame, li *loopInfo) *writeSet {
-	ws := &writeSet{cells: map[*ssa.Alloc]bool{}, comps: map[string]bool{}, roots: map[string][]ssa.Value{}, anyRef: map[string]bool{}}
+	ws := &writeSet{cells: map[*ssa.Alloc]bool{}, comps: map[string]bool{}, roots: map[string][]ssa.Value{}, anyRef: map[string]bool{}, blocks: li.blocks}
 	for b := range li.blocks {
 		for _, in := range b.Instrs {
 			ex.instrWrites(fr, in, ws, 0)
@@ -370,7 +393,7 @@ func (ex *Exec) instrWrites(fr *Frame, in ssa.Instruction, ws *writeSet, depth i
 		cell, prefix, root, ok := addrRootV(x.Addr)
 		switch {
 		case !ok:
-			ws.all = true
+			ws.setAll("site1")
 		case cell != nil:
 			ws.cells[cell] = true
 		default:
@@ -429,7 +452,7 @@ func (ex *Exec) callWrites(fr *Frame, c *ssa.CallCommon, ws *writeSet, depth int
 		case "delete":
 			ws.add("Map_"+typeKey(c.Args[0].Type().Underlying()), c.Args[0])
 		case "clear":
-			ws.all = true
+			ws.setAll("site2")
 		}
 	case *ssa.Function:
 		fnm := fullName(callee)
@@ -437,15 +460,31 @@ func (ex *Exec) callWrites(fr *Frame, c *ssa.CallCommon, ws *writeSet, depth int
 			return
 		}
 		if _, ok := intrinsics[fnm]; ok {
+			if strings.HasSuffix(fnm, ".Lock") || strings.HasSuffix(fnm, ".RLock") {
+				// taking a lock forgets what it guards: resolve the guarded
+				// families from the static type of the mutex expression
+				if !ex.staticLockWrites(c.Args[0], ws) {
+					ws.setAll("site3")
+				}
+				return
+			}
 			if iw, ok := intrinsicWrites[fnm]; ok {
 				iw(c, ws)
 			}
 			return
 		}
 		if ct := ex.db.funcs[funcName(callee)]; ct != nil && ct.HasAssigns {
-			// assigns patterns are evaluated per call; here only "something under
-			// these families" is known
-			ws.all = true
+			// resolve the frame statically where its shape allows it
+			if ct.AssignsAll {
+				ws.setAll("site4")
+				return
+			}
+			for _, ap := range ct.Assigns {
+				if !ex.staticAssign(callee, ap.Expr, ws) {
+					ws.setAll("site5")
+					return
+				}
+			}
 			return
 		}
 		if len(callee.Blocks) > 0 && (inModule(callee) || inlineExternal(callee)) && depth < 3 {
@@ -466,7 +505,7 @@ func (ex *Exec) callWrites(fr *Frame, c *ssa.CallCommon, ws *writeSet, depth int
 			return
 		}
 		if inModule(callee) {
-			ws.all = true
+			ws.setAll("site6")
 			return
 		}
 		ex.argWrites(c, ws)
@@ -481,15 +520,138 @@ func (ex *Exec) callWrites(fr *Frame, c *ssa.CallCommon, ws *writeSet, depth int
 				}
 			}
 			// writes through captured variables
-			ws.all = true
+			ws.setAll("site7")
 			return
 		}
-		ws.all = true
+		ws.setAll("site8")
 	}
 }
 
 // markSliceDest handles a destination that is a slice expression over an
 // addressable array (local or field); reports whether it did.
+// staticLockWrites: component families guarded by the mutex whose address is
+// computed by v (a chain of field selections from a pointer).
+func (ex *Exec) staticLockWrites(v ssa.Value, ws *writeSet) bool {
+	var fields []int
+	cur := v
+	for {
+		fa, ok := cur.(*ssa.FieldAddr)
+		if !ok {
+			break
+		}
+		fields = append([]int{fa.Field}, fields...)
+		cur = fa.X
+	}
+	pt, ok := cur.Type().Underlying().(*types.Pointer)
+	if !ok || len(fields) == 0 {
+		return false
+	}
+	root := pt.Elem()
+	t := root
+	var path []PathEl
+	for i, fi := range fields {
+		st, ok := t.Underlying().(*types.Struct)
+		if !ok {
+			return false
+		}
+		if i == len(fields)-1 {
+			on := ownerName(t)
+			name := st.Field(fi).Name()
+			for _, ld := range ex.db.locks {
+				if ld.Owner == on && ld.MuField == name {
+					owner := &Addr{Kind: AHeap, Root: root, ArrLen: -1, Path: path}
+					for pre := range ex.reachableComps(owner, t, ld) {
+						ws.add(pre, nil)
+					}
+					return true
+				}
+			}
+			return true // a mutex without a declaration guards nothing we track
+		}
+		path = append(path, PathEl{Field: fi})
+		t = st.Field(fi).Type()
+	}
+	return false
+}
+
+// staticAssign resolves an assigns pattern of a callee to component families
+// using only types: ghost counters and guarded(<param>[.field].mu).
+func (ex *Exec) staticAssign(callee *ssa.Function, e Expr, ws *writeSet) bool {
+	switch x := e.(type) {
+	case *EIdent:
+		if strings.HasPrefix(x.Name, "$") {
+			ws.add("Ghost_"+strings.TrimPrefix(x.Name, "$"), nil)
+			return true
+		}
+	case *ECall:
+		if x.Fn != "guarded" || len(x.Args) != 1 {
+			return false
+		}
+		// walk param.field...field
+		var names []string
+		cur := x.Args[0]
+		for {
+			if s, ok := cur.(*ESel); ok {
+				names = append([]string{s.Name}, names...)
+				cur = s.X
+				continue
+			}
+			break
+		}
+		id, ok := cur.(*EIdent)
+		if !ok || len(names) == 0 {
+			return false
+		}
+		var t types.Type
+		for _, p := range callee.Params {
+			if p.Name() == id.Name {
+				t = p.Type()
+			}
+		}
+		if t == nil {
+			return false
+		}
+		var root types.Type
+		var path []PathEl
+		for i, n := range names {
+			if pt, ok := t.Underlying().(*types.Pointer); ok {
+				// a pointer hop starts a new root object (only its type matters:
+				// the families are havocked for every object)
+				t = pt.Elem()
+				root = t
+				path = nil
+			}
+			st, ok := t.Underlying().(*types.Struct)
+			if !ok {
+				return false
+			}
+			fi := fieldIndex(st, n)
+			if fi < 0 {
+				return false
+			}
+			if root == nil {
+				return false
+			}
+			if i == len(names)-1 {
+				owner := &Addr{Kind: AHeap, Root: root, ArrLen: -1, Path: path}
+				on := ownerName(t)
+				for _, ld := range ex.db.locks {
+					if ld.Owner == on && ld.MuField == n {
+						for pre := range ex.reachableComps(owner, t, ld) {
+							ws.add(pre, nil)
+						}
+						return true
+					}
+				}
+				return false
+			}
+			path = append(path, PathEl{Field: fi})
+			t = st.Field(fi).Type()
+		}
+	}
+	return false
+}
+
 func (ws *writeSet) markSliceDest(v ssa.Value) bool {
 	if sl, ok := v.(*ssa.Slice); ok {
 		if _, isPtr := sl.X.Type().Underlying().(*types.Pointer); !isPtr {
@@ -718,6 +880,9 @@ func (ex *Exec) cutLoop(fr *Frame, st *State, li *loopInfo) {
 	// would keep their entry value: pre-touch by scanning is not possible for
 	// lazily created ones, so remember the prefixes and havoc on creation.
 	if ws.all {
+		if os.Getenv("GOVC_DEBUG") != "" {
+			fmt.Fprintf(os.Stderr, "loop %d of %s: whole heap havocked: %v\n", li.ordinal, funcName(fr.fn), ws.why)
+		}
 		ex.havocAllHeap(st, "loop")
 	} else {
 		ex.havocLoopComps(fr, st, li, ws)
